@@ -160,7 +160,7 @@ def angle_points(ctx):
 
 @case("C09", "dist.3d.lattice", [], kind="bounded", functions=FUN + ["geometer.point.SubspaceTensor.basis_matrix", "geometer.utils.math.orth"],
       bound="3D: pairs of points of {-1,0,2}^3 (scaled representatives), 36 lattice planes x 14 points, parallel plane pairs with rescaled/negated representatives; "
-            "3D angles for 21 direction pairs at 4 positions (three points, two lines) and two planes")
+            "3D angles for 21 direction pairs at 4 positions (three points, two lines) and two planes; 9 pairs of parallel planes (open finding KF-C09-1)")
 def dist_3d_lattice(ctx):
     import geometer as g
     from geometer.operators import dist
@@ -217,6 +217,15 @@ def dist_3d_lattice(ctx):
         got = abs(float(np.real(angle(e1, e2))))
         ok = min(abs(got - want), abs(got - (_m.pi - want))) < 1e-6
         ctx.ensure("angle-3d:two-planes", ok, witness=dict(n1=u, n2=v, got=got, want=want))
+    # two parallel planes enclose the angle 0 (mod pi)
+    for n_ in ((1, 2, 2), (0, 0, 1), (1, -1, 0)):
+        for (c1, c2, f) in ((-3, 1, 2), (0, 5, -1), (2, 3, 1)):
+            try:
+                got = abs(float(np.real(angle(g.Plane(*n_, c1), g.Plane(*[f * x for x in n_], c2)))))
+                ok = min(got, abs(got - _m.pi)) < 1e-6
+            except Exception as ex:
+                ok, got = False, type(ex).__name__
+            ctx.ensure("angle-3d:two-parallel-planes-enclose-0", ok, witness=dict(e=n_ + (c1,), f=tuple(f * x for x in n_) + (c2,), got=got), excuse=("KF-C09-1", None))
 
 
 @case("C09", "dist.point.point.3d", names("p", 3) + names("q", 3), mode="real", functions=FUN, timeout=240, max_paths=64, spare=40, xcheck=False,
